@@ -22,7 +22,7 @@ VARIABLE l
 \* prefix learned for each point (the uninterpreted function, as observed); last the call just seen
 TraceLog == ndJsonDeserialize("trace.ndjson")
 Dom(f) == DOMAIN f
-Put(f, k, v) == [x \in Dom(f) \cup {k} |-> IF x = k THEN v ELSE f[x]]
+Put(f, k, v) == (k :> v) @@ f            \* the left operand of @@ wins (TLC module, implemented in Java)
 Min(a, b) == IF a < b THEN a ELSE b
 PointOf(e) == <<e.alg, e.key, e.cnt, e.bearer, e.dir>>
 Tracked(e) == e.cell \in Dom(cell)
